@@ -201,3 +201,41 @@ Proof.
   - cbn [nth]. specialize (Co (S r) 0%nat ltac:(rewrite seq_length; lia)). cbn [nth] in Co. rewrite Co.
     rewrite seq_nth by lia. cbn [Nat.add]. rewrite diag_tail_zero by lia. f_equal. lia.
 Qed.
+
+(* ---- the generic (trait-default) mds_layer of poseidon.rs: the u128 accumulation of mds_row_shf
+   never overflows and stays below 2^96 - so `(sum >> 64) as u32` does not truncate - for every
+   u64 state; a property of the regenerated MDS constants.  (The Goldilocks instance overrides
+   mds_layer; this is the statement for the default code path.) *)
+Lemma mds_row_shf_impl_correct v r : length v = 12%nat -> Forall u64 v -> (r < 12)%nat ->
+  exists sum, mds_row_shf_impl r v = Some sum /\ 0 <= sum < 2 ^ 96 /\
+              sum = circ_row r v + nth r v 0 * nth r MDS_MATRIX_DIAG 0.
+Proof.
+  intros Hl Hv Hr.
+  do 13 (destruct v as [|? v]; try discriminate Hl).
+  repeat match goal with H : Forall _ (_ :: _) |- _ => inversion H; clear H; subst end.
+  unfold u64 in *.
+  do 12 (destruct r as [|r]; [
+    unfold mds_row_shf_impl, circ_row, nthZ;
+    cbn [seq map fold_right foldM nth Nat.modulo Nat.divmod Nat.add Nat.sub fst snd MDS_MATRIX_CIRC MDS_MATRIX_DIAG];
+    repeat (first [rewrite bind_chkU by lia | rewrite bind_ret | rewrite bind_Some]);
+    eexists; split; [apply chkU_Some; lia|]; split; lia |]).
+  lia.
+Qed.
+
+Theorem mds_layer_generic_correct : forall s : list Z, length s = 12%nat -> Forall u64 s ->
+  exists o, mds_layer_generic_impl s = Some o /\ length o = 12%nat /\ Forall u64 o /\
+    forall r, (r < 12)%nat ->
+      nth r o 0 mod P = (circ_row r s + nth r MDS_MATRIX_DIAG 0 * nth r s 0) mod P.
+Proof.
+  intros s Hl Hs. unfold mds_layer_generic_impl.
+  destruct (mapM_Rz
+    (fun r => bind (mds_row_shf_impl r s) (fun sum => bind (chkU 32 (shrZ sum 64)) (fun _ => reduce96_of_u128 sum)))
+    (fun r => circ_row r s + nth r MDS_MATRIX_DIAG 0 * nth r s 0) (seq 0 12)) as (o & Eo & Lo & Uo & Co).
+  { intros r Hr. apply in_seq in Hr.
+    destruct (mds_row_shf_impl_correct s r Hl Hs) as (sum & E & Hb & V); [lia|].
+    rewrite E, bind_Some. unfold shrZ. rewrite bind_chkU by (apply div_range; lia).
+    replace (circ_row r s + nth r MDS_MATRIX_DIAG 0 * nth r s 0) with sum by lia.
+    apply reduce96_of_u128_correct. exact Hb. }
+  exists o. split; [exact Eo|]. rewrite seq_length in Lo. split; [exact Lo|]. split; [exact Uo|].
+  intros r Hr. specialize (Co r 0%nat ltac:(rewrite seq_length; lia)). rewrite seq_nth in Co by lia. exact Co.
+Qed.
